@@ -92,6 +92,10 @@ def gen_ops(rng, count):
 
     def add(c):
         c.setdefault("dtype", dts[len(cases) % len(dts)])
+        if c["op"] in ("block_diag", "embed") and c["dtype"] == "i64":
+            # piquasso only ever passes float / complex gate blocks to these two; TensorFlow's
+            # LinearOperatorFullMatrix and scatter_nd of a literal 1.0 reject integer tensors
+            c["kinds"] = [k for k in c.get("kinds", KINDS) if k in ("np", "jax")]
         cases.append(c)
 
     # fixed corner cases first: 0-size, negative, repeated, out of range
@@ -245,6 +249,18 @@ def unitary(rng, n):
     return {"matrix": np.stack([q.real, q.imag], axis=-1).tolist()}
 
 
+# gates the pure Fock simulator applies through piquasso/_math/decompositions.py:euler
+# (fock/pure/simulation_steps:linear)
+EULER_GATES = ("Squeezing2", "QuadraticPhase", "GaussianTransform")
+# errors by which JAX says "this Python code cannot be traced" (no compiled result exists)
+JAX_TRACER_ERRORS = ("ConcretizationTypeError", "TracerBoolConversionError", "TracerArrayConversionError",
+                     "TracerIntegerConversionError", "NonConcreteBooleanIndexError", "UnexpectedTracerError")
+
+
+def has_euler_gate(sim, instructions):
+    return sim == "pure_fock" and any(i[0] in EULER_GATES for i in instructions)
+
+
 def gen_pure_fock(rng, d, cutoff, ngates, modes):
     instr = [["Vacuum", "all", {}]]
     if cutoff >= 2:
@@ -293,6 +309,10 @@ def gen_pure_fock(rng, d, cutoff, ngates, modes):
         o = [0] * d
         o[rng.randrange(d)] = 1
         occs.append(o)
+    if has_euler_gate("pure_fock", instr):
+        # euler()/takagi() group singular values with data-dependent Python control flow, which
+        # jax.jit cannot trace: such programs have no compiled form
+        modes = [m for m in modes if m != "jaxjit"]
     return {"sim": "pure_fock", "d": d, "cutoff": cutoff, "instructions": instr, "occupations": occs,
             "traced": traced, "modes": modes}
 
@@ -420,7 +440,12 @@ def compare_programs(chk, progs, results, tol):
             notes["all connectors raise"] = notes.get("all connectors raise", 0) + 1
             continue
         wit = {"program": prog}
+        euler_prog = has_euler_gate(prog["sim"], prog["instructions"])
         for m in res:
+            if m == "jaxjit" and "exc" in res[m] and res[m]["exc"] in JAX_TRACER_ERRORS:
+                notes["not traceable by jax.jit (%s)" % res[m]["exc"]] = notes.get(
+                    "not traceable by jax.jit (%s)" % res[m]["exc"], 0) + 1
+                continue
             if "exc" in res[m]:
                 key = "C09:%s:execute:%s:raises-%s%s" % (prog["sim"], m, res[m]["exc"],
                                                         ":cutoff=%d" % prog["cutoff"] if small else "")
@@ -453,7 +478,14 @@ def compare_programs(chk, progs, results, tol):
                     continue
                 nvals += a.size
                 err = float(np.max(np.abs(a - b) / (1.0 + np.abs(b)))) if a.size else 0.0
-                if not (err <= tol):
+                if not (err <= tol) and euler_prog:
+                    # one input class: the Euler factors are not unique (degenerate squeezings), each
+                    # connector's SVD picks another basis, and the truncated product depends on it
+                    chk.violation("C09:pure_fock:linear-gate:truncated-euler-nonunique:%s" % m,
+                                  "%s differs between %s and %s by %.3g in a program with a gate applied through the "
+                                  "Euler decomposition (%s)" % (name, m, base, err, "/".join(EULER_GATES)),
+                                  dict(wit, observable=name, mode=m, reference=base, max_relative_difference=err))
+                elif not (err <= tol):
                     chk.violation("C09:%s:%s:%s:differs" % (prog["sim"], obs_base(name), m),
                                   "%s differs between %s and %s by %.3g (relative, tolerance %.1g)" % (
                                       name, m, base, err, tol),
@@ -469,7 +501,7 @@ def run(chk: Check):
     th.start()
 
     # ---------------- requests
-    ops = gen_ops(rng, 400 if T else 140)
+    ops = gen_ops(rng, 400 if T else 110)
     corpus_path = os.path.join(VERIF, "harness", "corpus", "c09.jsonl")
     corpus = []
     if os.path.exists(corpus_path):
@@ -484,7 +516,11 @@ def run(chk: Check):
     for d, c in dc:
         if not T and (d, c) in ((3, 5),):
             continue
-        interf.append({"mode": "dyadic", "d": d, "cutoff": c, "seed": rng.randrange(2 ** 31), "U": rU(d, d)})
+        case = {"mode": "dyadic", "d": d, "cutoff": c, "seed": rng.randrange(2 ** 31), "U": rU(d, d)}
+        if not T and c < 3:
+            # quick tier: tracing / compiling costs ~1-2 s per variant; the compiled variants run on cutoff >= 3
+            case["variants"] = ["numba", "generic_np", "generic_tf", "generic_tff", "generic_jax"]
+        interf.append(case)
     for _ in range(12 if T else 4):
         J = rng.randint(1, 3)
         nrow = rng.randint(1, 3)
@@ -501,8 +537,24 @@ def run(chk: Check):
     fermi = []
     for d, c in [(1, 1), (1, 2), (2, 2), (2, 3), (3, 3), (3, 4), (4, 4)] + ([(4, 5), (5, 4), (5, 6)] if T else []):
         fermi.append({"M": [[[rng.randint(-3, 3), rng.randint(-3, 3)] for _ in range(d)] for _ in range(d)], "cutoff": c})
+    # Euler decomposition on each connector, judged by the relation it must satisfy
+    euler = [{"gate": ["Squeezing2", [0, 1], {"r": 0.3, "phi": 0.7}]},      # degenerate, complex (corpus)
+             {"gate": ["Squeezing2", [0, 1], {"r": 0.2, "phi": 0.0}]},
+             {"gate": ["QuadraticPhase", [0], {"s": 0.4}]}]
+    for _ in range(12 if T else 3):
+        euler.append({"gate": ["Squeezing2", [0, 1], {"r": rfloat(rng, 0.05, 0.6), "phi": rfloat(rng, -3, 3)}]})
+    for _ in range(12 if T else 3):
+        n = rng.randint(1, 3)
+        g = np.random.default_rng(rng.randrange(2 ** 31))
+        u = np.linalg.qr(g.normal(size=(n, n)) + 1j * g.normal(size=(n, n)))[0]
+        v = np.linalg.qr(g.normal(size=(n, n)) + 1j * g.normal(size=(n, n)))[0]
+        dd = np.array([0.15 + 0.2 * i + 0.1 * rng.random() for i in range(n)])
+        pblock = u @ np.diag(np.cosh(dd)) @ v
+        ablock = u @ np.diag(-np.sinh(dd)) @ np.conj(v)
+        euler.append({"P": np.stack([pblock.real, pblock.imag], axis=-1).tolist(),
+                      "A": np.stack([ablock.real, ablock.imag], axis=-1).tolist(), "n": n})
     progs = [c["program"] for c in corpus if "program" in c] + gen_programs(rng, T)
-    req = {"ops": ops, "interf": interf, "fermi": fermi, "programs": progs}
+    req = {"ops": ops, "interf": interf, "fermi": fermi, "euler": euler, "programs": progs}
     cache = os.environ.get("C09_DEV_IMPL_CACHE")  # development aid only: reuse one implementation run
     if cache and os.path.exists(cache):
         impl = json.load(open(cache))
@@ -663,6 +715,29 @@ Eval vm_compute in mismatches ok cases.
         chk.violation("C09:calculate_interferometer_on_fermionic_fock_space:%s:model" % "+".join(ks), msg, {"case": c})
     chk.stream("fermionic Laplace representation: generic (NumPy and JAX assign), numba and jax versions vs the three Gallina models, exact Gaussian integers",
                sum(len(ks) for _, ks in own), sum(1 for c, _ in own if c["cutoff"] >= 3), samples=[fermi[3]])
+
+    # ---------------- Euler decomposition: relational specification on every connector (test)
+    nrel = 0
+    for c, r in zip(euler, impl["euler"]):
+        for kind, v in r.items():
+            nrel += 1
+            what = None
+            if "exc" in v:
+                what = "euler() raises %s" % v["exc"]
+            else:
+                worst = max(v.values())
+                if not worst <= 1e-8:
+                    what = ("euler() does not return a decomposition: passive %.2g, active %.2g, unitarity %.2g, "
+                            "imaginary squeezing %.2g" % (v["err_passive"], v["err_active"], v["err_unitary"],
+                                                          v["imag_squeezing"]))
+            if what:
+                chk.violation("C09:euler:%s:not-a-decomposition" % kind,
+                              "%s on the %s connector (the factors are not unique, the relation is)" % (what, kind),
+                              {"case": c, "connector": kind, "result": v,
+                               "call": "piquasso._math.decompositions.euler(block([[P, A], [conj A, conj P]]), connector)"})
+    chk.stream("euler() of Squeezing2 / QuadraticPhase / random Gaussian transforms on NumPy, TensorFlow, JAX: unitarity and reconstruction "
+               "of the passive and active blocks (relational test, no theorem)", nrel, nrel,
+               samples=[euler[0]], kind="differential test (no theorem)")
 
     # ---------------- differential test on whole programs (the search; no theorem)
     npairs, nvals, notes = compare_programs(chk, progs, impl["programs"], 1e-9)
